@@ -29,7 +29,12 @@ Record col := mkCol { c_name : name; c_ty : ty; c_nullable : bool; c_default : o
 (* KPrimary: a NAMED primary key (it lives in named_constraints); the unnamed one is tb_pk / b_pk *)
 Inductive ckind := KUnique | KCheck (txt:N) | KFk (rtable:name) (rcols:list name) | KPrimary.
 Record con := mkCon { k_name : name; k_kind : ckind; k_cols : list key }.    (* reflected CHECK: no Column objects, k_cols = [] *)
-Record index := mkIndex { x_name : name; x_cols : list key; x_unique : bool }.
+(* x_where: the partial-index predicate SQLite reflects (dialect option sqlite_where) and the Index copy carries (its kwargs): an opaque
+   text (token, compared for equality) together with the column NAMES the text mentions — the text is never rewritten, so
+   CREATE INDEX ... WHERE fails in the database when one of them is not a column of the recreated table *)
+Record index := mkIndex { x_name : name; x_cols : list key; x_unique : bool; x_where : option (N * list name) }.
+Definition where_ok (names:list name) (x:index) : bool :=
+  match x_where x with Some (_, ms) => forallb (fun m => mem_name m names) ms | None => true end.
 Record tbl := mkTbl { tb_cols : list (key * col); tb_pk : list key; tb_cons : list con; tb_idx : list index }.
 
 Record transfer := mkTr { tr_expr : option (key * list ty);        (* source column, CAST targets (innermost first) *)
@@ -38,9 +43,11 @@ Record transfer := mkTr { tr_expr : option (key * list ty);        (* source col
 Record bstate := mkB {
   b_cols : list (key * col); b_tr : list (key * transfer); b_named : list con; b_pk : list key;
   b_idx : list index; b_newidx : list index; b_order : list (key * key); b_existing : list key;
-  b_flags : list key }.        (* keys of the columns whose Column.primary_key flag is set *)
+  b_flags : list key;          (* keys of the columns whose Column.primary_key flag is set *)
+  b_partial : list (list key); (* self.partial_reordering: tuples of column keys *)
+  b_targs : list con }.        (* self.table_args: extra constraints handed to the new Table(...) *)
 
-Inductive berr := EKeyError | EValueError | ECircular | EDuplicateColumn | EOperationalB | ECommandB | EFuelB | EOtherB.
+Inductive berr := EKeyError | EValueError | ECircular | EDuplicateColumn | EOperationalB | ECommandB | ENotImplementedB | EFuelB | EOtherB.
 Inductive bres (A:Type) := BOk (a:A) | BErr (e:berr).
 Arguments BOk {A} a. Arguments BErr {A} e.
 
@@ -78,10 +85,16 @@ Definition is_primary (c:con) : bool := match k_kind c with KPrimary => true | _
    is the unnamed one (b_pk) or the named one sitting in named_constraints *)
 Definition pk_drop_col (k:key) (c:con) : con :=
   if is_primary c then mkCon (k_name c) (k_kind c) (remove_name k (k_cols c)) else c.
-Definition init (T:tbl) : bstate :=
+Definition init_with (P:list (list key)) (A:list con) (T:tbl) : bstate :=
   mkB (tb_cols T) (map (fun p => (fst p, mkTr (Some (fst p, [])) None)) (tb_cols T))
       (tb_cons T) (tb_pk T) (tb_idx T) [] [] (akeys (tb_cols T))
-      (tb_pk T ++ flat_map k_cols (filter is_primary (tb_cons T))).
+      (tb_pk T ++ flat_map k_cols (filter is_primary (tb_cons T))) P A.
+Definition init (T:tbl) : bstate := init_with [] [] T.
+(* _grab_table_elements: `elif self.reflected and isinstance(const, CheckConstraint) and not const.name: pass` — the unnamed
+   CHECK constraints of a REFLECTED table are skipped (they do not reach the new table); with copy_from they are carried.
+   `uchecks`: the table's unnamed CHECK constraints (kept apart from tb_cons, which holds everything else). *)
+Definition grab (reflected:bool) (uchecks:list con) (T:tbl) : tbl :=
+  mkTbl (tb_cols T) (tb_pk T) (tb_cons T ++ (if reflected then [] else uchecks)) (tb_idx T).
 
 (* ------------------------------------------------------------------ operations *)
 Record alter := mkAlter { al_name : option name; al_type : option ty; al_nullable : option bool;
@@ -102,7 +115,7 @@ Fixpoint alast {V} (l:list (key * V)) (k:key) : option V :=         (* dict(pair
   match l with [] => None | (k', v) :: r => match alast r k with Some v' => Some v' | None => if name_eqb k k' then Some v else None end end.
 
 (* _setup_dependencies_for_add_column, partial_reordering = () *)
-Definition setup_dependencies (s:bstate) (colname:key) (before after:option key) : bres (list (key * key)) :=
+Definition setup_dependencies_noreorder (s:bstate) (colname:key) (before after:option key) : bres (list (key * key)) :=
   let index_cols := b_existing s in
   (* if insert_after and not insert_before: derive insert_before *)
   let before1 : bres (option key) :=
@@ -138,13 +151,24 @@ Definition setup_dependencies (s:bstate) (colname:key) (before after:option key)
     end
   end.
 
+(* with partial_reordering the implicit neighbours are not derived: only what the caller named is recorded *)
+Definition setup_dependencies (s:bstate) (colname:key) (before after:option key) : bres (list (key * key)) :=
+  match b_partial s with
+  | [] => setup_dependencies_noreorder s colname before after
+  | _ =>
+      let o1 := match before with Some b => b_order s ++ [(colname, b)] | None => b_order s end in
+      BOk (match after with Some a => o1 ++ [(a, colname)] | None => o1 end)
+  end.
+
 Definition apply_batch_op (o:batch_op) (s:bstate) : bres bstate :=
   match o with
   | OAddColumn k c before after =>
       match setup_dependencies s k before after with
       | BErr e => BErr e
       | BOk ord => BOk (mkB (aset k c (b_cols s)) (aset k (mkTr None None) (b_tr s)) (b_named s) (b_pk s)
-                            (b_idx s) (b_newidx s) ord (b_existing s) (b_flags s))
+                            (b_idx s) (b_newidx s) ord (b_existing s)
+                            (remove_name k (b_flags s))      (* a new Column object: its own primary_key flag (never set here) *)
+                            (b_partial s) (b_targs s))
       end
   | ODropColumn k =>
       match aget k (b_cols s) with
@@ -152,7 +176,7 @@ Definition apply_batch_op (o:batch_op) (s:bstate) : bres bstate :=
       | Some _ =>
           if mem_name k (b_existing s)
           then BOk (mkB (adel k (b_cols s)) (adel k (b_tr s)) (map (pk_drop_col k) (b_named s)) (remove_name k (b_pk s))
-                        (b_idx s) (b_newidx s) (b_order s) (remove_name k (b_existing s)) (b_flags s))
+                        (b_idx s) (b_newidx s) (b_order s) (remove_name k (b_existing s)) (b_flags s) (b_partial s) (b_targs s))
           else BErr EValueError                         (* existing_ordering.remove of an added column *)
       end
   | OAlterColumn k a =>
@@ -170,22 +194,23 @@ Definition apply_batch_op (o:batch_op) (s:bstate) : bres bstate :=
           let c2 := match al_type a with Some nt => mkCol (c_name c1) nt (c_nullable c1) (c_default c1) | None => c1 end in
           let c3 := match al_nullable a with Some b => mkCol (c_name c2) (c_ty c2) b (c_default c2) | None => c2 end in
           let c4 := match al_default a with Some d => mkCol (c_name c3) (c_ty c3) (c_nullable c3) d | None => c3 end in
-          BOk (mkB (aset k c4 (b_cols s)) (aset k t2 (b_tr s)) (b_named s) (b_pk s) (b_idx s) (b_newidx s) (b_order s) (b_existing s) (b_flags s))
+          BOk (mkB (aset k c4 (b_cols s)) (aset k t2 (b_tr s)) (b_named s) (b_pk s) (b_idx s) (b_newidx s) (b_order s) (b_existing s) (b_flags s) (b_partial s) (b_targs s))
       | _, _ => BErr EKeyError
       end
-  | OAddConstraint c => BOk (mkB (b_cols s) (b_tr s) (con_set c (b_named s)) (b_pk s) (b_idx s) (b_newidx s) (b_order s) (b_existing s) (b_flags s))
+  | OAddConstraint c => BOk (mkB (b_cols s) (b_tr s) (con_set c (b_named s)) (b_pk s) (b_idx s) (b_newidx s) (b_order s) (b_existing s) (b_flags s) (b_partial s) (b_targs s))
   | ODropConstraint n =>
       match con_get n (b_named s) with
       | Some c =>
           (* `const = self.named_constraints.pop(name)`; a PrimaryKeyConstraint: its columns lose their primary_key flag *)
           BOk (mkB (b_cols s) (b_tr s) (con_del n (b_named s)) (b_pk s) (b_idx s) (b_newidx s) (b_order s) (b_existing s)
-                   (if is_primary c then filter (fun k => negb (mem_name k (k_cols c))) (b_flags s) else b_flags s))
+                   (if is_primary c then filter (fun k => negb (mem_name k (k_cols c))) (b_flags s) else b_flags s)
+                   (b_partial s) (b_targs s))
       | None => BErr EValueError
       end
-  | OCreateIndex x => BOk (mkB (b_cols s) (b_tr s) (b_named s) (b_pk s) (b_idx s) (idx_set x (b_newidx s)) (b_order s) (b_existing s) (b_flags s))
+  | OCreateIndex x => BOk (mkB (b_cols s) (b_tr s) (b_named s) (b_pk s) (b_idx s) (idx_set x (b_newidx s)) (b_order s) (b_existing s) (b_flags s) (b_partial s) (b_targs s))
   | ODropIndex n =>
       match idx_get n (b_idx s) with
-      | Some _ => BOk (mkB (b_cols s) (b_tr s) (b_named s) (b_pk s) (idx_del n (b_idx s)) (b_newidx s) (b_order s) (b_existing s) (b_flags s))
+      | Some _ => BOk (mkB (b_cols s) (b_tr s) (b_named s) (b_pk s) (idx_del n (b_idx s)) (b_newidx s) (b_order s) (b_existing s) (b_flags s) (b_partial s) (b_targs s))
       | None => BErr EValueError
       end
   end.
@@ -230,17 +255,24 @@ Definition no_transfer (trs:list (key * transfer)) : bool := forallb (fun p => n
 
 Definition zip_pairs (a b:list key) : list (key * key) :=      (* (col_by_idx[i-1], existing[i]) for i >= 1 *)
   combine a (tl b).
+(* the pairs _adjust_self_columns_for_partial_reordering starts from: consecutive elements of every partial_reordering tuple,
+   or, without partial_reordering, the existing order *)
+Definition base_pairs (s:bstate) : list (key * key) :=
+  match b_partial s with
+  | [] => zip_pairs (akeys (b_cols s)) (b_existing s)
+  | P => flat_map (fun t => combine t (tl t)) P
+  end.
 
 Section Finish.
   Variable tsort : list (key * key) -> list key -> option (list key).
 
   (* _adjust_self_columns_for_partial_reordering *)
   Definition reorder (s:bstate) : bres (list (key * col) * list (key * transfer)) :=
-    match b_order s with
-    | [] => BOk (b_cols s, b_tr s)
-    | _ =>
+    match b_order s, b_partial s with
+    | [], [] => BOk (b_cols s, b_tr s)                  (* `if self.partial_reordering or self.add_col_ordering:` *)
+    | _, _ =>
       let col_by_idx := akeys (b_cols s) in
-      let pairs := filter (fun p => negb (name_eqb (fst p) (snd p))) (zip_pairs col_by_idx (b_existing s) ++ b_order s) in
+      let pairs := filter (fun p => negb (name_eqb (fst p) (snd p))) (base_pairs s ++ b_order s) in
       match tsort pairs col_by_idx with
       | None => BErr ECircular
       | Some sorted =>
@@ -281,20 +313,23 @@ Section Finish.
       then BErr EDuplicateColumn
       else if negb (forallb (fun x => sub_names (x_cols x) (akeys cols ++ flat_map x_cols (b_idx s))) (b_newidx s)) then BErr EKeyError
       else if negb (forallb (fun x => sub_names (x_cols x) (akeys cols)) (b_idx s ++ b_newidx s)) then BErr EOperationalB
+      (* a partial index whose predicate names a column that is gone (dropped, or renamed: the text still has the old name) *)
+      else if negb (forallb (where_ok (map (fun p => c_name (snd p)) cols)) (b_idx s ++ b_newidx s)) then BErr EOperationalB
       else
       BOk (mkDesc (map snd cols) pk
-                  (map (fun c => mkCon (k_name c) (k_kind c) (map rn (k_cols c))) (filter con_visible kept))
-                  (map (fun x => mkIndex (x_name x) (map rn (x_cols x)) (x_unique x)) (b_idx s ++ b_newidx s)),
+                  (map (fun c => mkCon (k_name c) (k_kind c) (map rn (k_cols c))) (filter con_visible kept) ++ b_targs s)
+                  (map (fun x => mkIndex (x_name x) (map rn (x_cols x)) (x_unique x) (x_where x)) (b_idx s ++ b_newidx s)),
            flat_map (fun p => match tr_expr (snd p) with
                               | Some (src, cast) => [(rn (fst p), src, cast)]
                               | None => [] end) trs)
     end.
 
-  Definition batch (T:tbl) (ops:list batch_op) : bres (ndesc * copymap) :=
-    match apply_ops ops (init T) with
+  Definition batch_with (P:list (list key)) (A:list con) (T:tbl) (ops:list batch_op) : bres (ndesc * copymap) :=
+    match apply_ops ops (init_with P A T) with
     | BErr e => BErr e
     | BOk s => finish s
     end.
+  Definition batch (T:tbl) (ops:list batch_op) : bres (ndesc * copymap) := batch_with [] [] T ops.
 End Finish.
 
 (* ------------------------------------------------------------------ recreate='auto' *)
@@ -321,7 +356,8 @@ Definition direct_op (o:batch_op) (T:tbl) : bres tbl :=
       else if negb (c_nullable c) && negb (is_some (c_default c)) then BErr EOperationalB
       else BOk (mkTbl (tb_cols T ++ [(k, c)]) (tb_pk T) (tb_cons T) (tb_idx T))
   | OCreateIndex x =>
-      if is_some (idx_get (x_name x) (tb_idx T)) || negb (sub_names (x_cols x) (akeys (tb_cols T))) then BErr EOperationalB
+      if is_some (idx_get (x_name x) (tb_idx T)) || negb (sub_names (x_cols x) (akeys (tb_cols T)))
+         || negb (where_ok (map (fun p => c_name (snd p)) (tb_cols T)) x) then BErr EOperationalB
       else BOk (mkTbl (tb_cols T) (tb_pk T) (tb_cons T) (tb_idx T ++ [x]))
   | ODropIndex n =>
       if is_some (idx_get n (tb_idx T)) then BOk (mkTbl (tb_cols T) (tb_pk T) (tb_cons T) (idx_del n (tb_idx T)))
@@ -337,8 +373,61 @@ Definition desc_of_tbl (T:tbl) : ndesc :=
   let rn := fun k => match aget k (tb_cols T) with Some c => c_name c | None => k end in
   mkDesc (map snd (tb_cols T)) (map rn (tb_pk T))
          (map (fun c => mkCon (k_name c) (k_kind c) (map rn (k_cols c))) (filter con_visible (tb_cons T)))
-         (map (fun x => mkIndex (x_name x) (map rn (x_cols x)) (x_unique x)) (tb_idx T)).
+         (map (fun x => mkIndex (x_name x) (map rn (x_cols x)) (x_unique x) (x_where x)) (tb_idx T)).
 Definition identity_map (T:tbl) : list (name * key * list ty) := map (fun p => (c_name (snd p), fst p, [])) (tb_cols T).
+
+(* ------------------------------------------------------------------ recreate='never' *)
+(* _should_recreate() is False whatever the operations: each goes to SQLiteImpl / DefaultImpl directly.
+   add_column / create_index / drop_index as above; drop_column -> ALTER TABLE DROP COLUMN (SQLite refuses a column of the
+   primary key, of a constraint or of an index); alter_column -> one ALTER per changed attribute, of which SQLite only knows
+   RENAME COLUMN (nullable / server_default / type are syntax errors, emitted first); add_constraint / drop_constraint ->
+   SQLiteImpl raises NotImplementedError.  Columns are referred to by their CURRENT names here (no Column keys): the
+   state carries, for every column, the original column it descends from. *)
+Definition rename_key (k n:key) (x:key) : key := if name_eqb x k then n else x.
+Definition self_table : name := [116]%N.      (* the table under test is always called "t" (the description carries no table name) *)
+Definition never_op (o:batch_op) (st:tbl * list (key * key)) : bres (tbl * list (key * key)) :=
+  let (T, orig) := st in
+  match o with
+  | OAddColumn _ _ _ _ | OCreateIndex _ | ODropIndex _ =>
+      match direct_op o T with BOk T' => BOk (T', orig) | BErr e => BErr e end
+  | ODropColumn k =>
+      match aget k (tb_cols T) with
+      | None => BErr EOperationalB
+      | Some _ =>
+          if mem_name k (tb_pk T) || existsb (fun c => mem_name k (k_cols c)) (tb_cons T)
+             || existsb (fun x => mem_name k (x_cols x) || match x_where x with Some (_, ms) => mem_name k ms | None => false end) (tb_idx T) then BErr EOperationalB
+          else BOk (mkTbl (adel k (tb_cols T)) (tb_pk T) (tb_cons T) (tb_idx T), adel k orig)
+      end
+  | OAlterColumn k a =>
+      if is_some (al_nullable a) || is_some (al_default a) || is_some (al_type a) then BErr EOperationalB
+      else match aget k (tb_cols T), al_name a with
+           | None, _ => BErr EOperationalB
+           | Some _, None => BOk (T, orig)
+           | Some c, Some n =>
+               if mem_name n (map (fun p => c_name (snd p)) (tb_cols T)) then BErr EOperationalB
+               else BOk (mkTbl (map (fun p => if name_eqb (fst p) k then (n, mkCol n (c_ty (snd p)) (c_nullable (snd p)) (c_default (snd p))) else p) (tb_cols T))
+                               (map (rename_key k n) (tb_pk T))
+                               (map (fun c0 => mkCon (k_name c0)
+                                                     (match k_kind c0 with      (* RENAME COLUMN also rewrites a self-referential FK's target *)
+                                                      | KFk rt rc => if name_eqb rt self_table then KFk rt (map (rename_key k n) rc) else KFk rt rc
+                                                      | kd => kd end)
+                                                     (map (rename_key k n) (k_cols c0))) (tb_cons T))
+                               (* ... and the predicate of a partial index *)
+                               (map (fun x => mkIndex (x_name x) (map (rename_key k n) (x_cols x)) (x_unique x)
+                                                      (match x_where x with Some (tk, ms) => Some (tk, map (rename_key k n) ms) | None => None end)) (tb_idx T)),
+                        map (fun p => (rename_key k n (fst p), snd p)) orig)
+           end
+  | OAddConstraint _ | ODropConstraint _ => BErr ENotImplementedB
+  end.
+Fixpoint never_ops (ops:list batch_op) (st:tbl * list (key * key)) : bres (tbl * list (key * key)) :=
+  match ops with
+  | [] => BOk st
+  | o :: r => match never_op o st with BOk st' => never_ops r st' | BErr e => BErr e end
+  end.
+Definition never_command_error (ops:list batch_op) : bool :=
+  existsb (fun o => match o with OAddColumn _ _ b a => is_some b || is_some a | _ => false end) ops.
+Definition origin_map (T:tbl) (orig:list (key * key)) : list (name * key * list ty) :=
+  flat_map (fun p => match aget (fst p) orig with Some k0 => [(c_name (snd p), k0, [])] | None => [] end) (tb_cols T).
 
 (* ------------------------------------------------------------------ rows *)
 (* a row of the old table: one value per original column, in column order.  `cast` is SQLite's CAST (an oracle).
